@@ -92,6 +92,20 @@ def gen_obj_case(seed, idx, sigs, cls_name=None, n_points=60):
             case.fail("C17", "exceeds-fmax", f"f({p}) = {v!r} > fmax = {fmax!r}", cls=cls_name)
         if float(v2) != v:
             case.fail("C17", "impure", f"two evaluations at {p} differ", cls=cls_name)
+    # purity across calls: the same object must give what a fresh object gives, whatever it evaluated before
+    if DOMAINS[cls_name] is None:
+        fresh, _ = construct(cls_name, random.Random(f"obj-{seed}-{idx}-{cls_name}"))
+        for dd in (2, 1, 3, 4, 2, 1):
+            p = [rnd.uniform(-1, 1) for _ in range(dd)]
+            try:
+                v1 = float(obj.f(list(p)))
+                f2, _ = construct(cls_name, random.Random(f"obj-{seed}-{idx}-{cls_name}"))
+                v2 = float(f2.f(list(p)))
+                if v1 != v2:
+                    case.fail("C17", "impure", f"f({p}) = {v1!r} on an object that evaluated other points before, {v2!r} on a fresh object", cls=cls_name)
+                    break
+            except Exception as e:
+                case.fail("C17", "exception-in-domain", f"{type(e).__name__}: {e} at {p}", cls=cls_name); break
     # attainment
     if cls_name in MAXIMISER:
         xs = MAXIMISER[cls_name](obj)
